@@ -1145,3 +1145,94 @@ func harnessC19concurrent() {
 	vCover("done")
 	vDone()
 }
+
+// ---------------------------------------------------------------------------------------------- C16: the plugin side alone
+// A plugin process started with an arbitrary environment: cookie variable unset or an arbitrary string, multiplexing
+// variable unset / empty / "true" / another value, client certificate set or not; it serves net/rpc or gRPC, with plain
+// or versioned plugin sets.
+func harnessC16world() {
+	grpcMode := vChoice(2) == 1
+	versioned := vChoice(2) == 1
+	pl := &wPlug{}
+	serve := &ServeConfig{HandshakeConfig: wHandshake0, Logger: newWLogger()}
+	if versioned {
+		serve.VersionedPlugins = map[int]PluginSet{2: {"test": pl}, 3: {"test": pl}}
+	} else {
+		serve.Plugins = PluginSet{"test": pl}
+	}
+	if grpcMode {
+		serve.GRPCServer = wNewGRPCServer
+	}
+	if vChoice(2) == 1 {
+		serve.MagicCookieKey = "" // a misconfigured plugin
+		vCover("no-cookie-key")
+	}
+	p := newWProc(func() { Serve(serve) })
+	envSet := vChoice(2) == 1
+	envVal := vNondetStr("envval", "")
+	if envSet {
+		vSetenvProc(p.id, "COOKIE", envVal)
+	}
+	muxMode := vChoice(4) // 0 unset, 1 "true", 2 some other non-empty value, 3 set but empty
+	switch muxMode {
+	case 1:
+		vSetenvProc(p.id, "PLUGIN_MULTIPLEX_GRPC", "true")
+	case 2:
+		mv := vNondetStr("muxval", "")
+		vAssume(mv != "")
+		vSetenvProc(p.id, "PLUGIN_MULTIPLEX_GRPC", mv)
+	case 3:
+		vSetenvProc(p.id, "PLUGIN_MULTIPLEX_GRPC", "")
+	}
+	if vChoice(2) == 1 {
+		c, _, _ := generateCert()
+		vSetenvProc(p.id, "PLUGIN_CLIENT_CERT", string(c))
+		vCover("client-cert")
+	}
+	if versioned {
+		vSetenvProc(p.id, "PLUGIN_PROTOCOL_VERSIONS", "3,2")
+	}
+	p.launch()
+	vSleepUntil(sec)
+	cookieOK := serve.MagicCookieKey != "" && envSet && envVal == "V"
+	if !cookieOK {
+		vCover("refused")
+		vAssert(p.isDead && p.exitCode == 1, "C16: wrong or missing cookie exits with status 1")
+		vAssert(len(wStdoutLines) == 0, "C16: nothing is printed to stdout without the cookie")
+		vAssert(len(wListeners) == 0, "C16: no listener is opened without the cookie")
+		vDone()
+	}
+	vCover("serving")
+	vAssert(!p.isDead, "C16: with the cookie the plugin serves")
+	vAssert(len(wStdoutLines) == 1, "C16: exactly one line on the plugin's real stdout")
+	vAssert(len(wEvents) >= 2 && wEvents[0] == "listen" && wEvents[len(wEvents)-1] == "print", "C16: the listener exists before the line is printed")
+	line := strings.TrimSuffix(wStdoutLines[0], "\n")
+	vAssert(line+"\n" == wStdoutLines[0], "C16: the line ends with a newline")
+	seps := vCountSep(line, "|")
+	if muxMode == 0 || muxMode == 3 {
+		vAssert(seps == 5, "C16: six fields when the host did not signal multiplexing")
+	} else {
+		vAssert(seps == 6, "C16: seven fields exactly when the host signalled multiplexing")
+	}
+	parts := strings.Split(line, "|")
+	vAssert(parts[0] == "1", "C16: the line starts with the core protocol version")
+	if versioned {
+		vAssert(parts[1] == "3", "C16: the line carries the negotiated application version")
+	} else {
+		vAssert(parts[1] == "1", "C16: the line carries the application version")
+	}
+	want := "netrpc"
+	if grpcMode {
+		want = "grpc"
+	}
+	vAssert(parts[4] == want, "C16: the line announces the protocol served")
+	// the announced address is accepting connections when the line appears
+	found := false
+	for _, l := range wListeners {
+		if !l.closed && l.addr.network == parts[2] && l.addr.addr == parts[3] {
+			found = true
+		}
+	}
+	vAssert(found, "C16: the announced address is already accepting connections when the line appears")
+	vDone()
+}
